@@ -409,6 +409,7 @@ func (st *Runtime) executeYieldBlock(block *BlockNode, blockParam, yieldParam *B
 
 func (st *Runtime) executeList(list *ListNode) (returnValue reflect.Value) {
 	inNewScope := false // to use just one scope for multiple actions with variable declarations
+
 	verifNormal := false // set when the list ends normally (a deferred hook cannot tell a panic otherwise)
 	if verifOn {
 		vt(st, "list.begin")
